@@ -1,0 +1,54 @@
+//go:build verif
+
+// Machine-checked contracts (comment-only; compiled only under the build tag "verif").
+package v1beta1
+
+//@ define nonEmpty(r) = r.BlueGreen != nil || r.Canary != nil
+
+//@ func (*RolloutStrategy).GetRollingStyle
+//@ props C02 C09
+//@ requires r != nil && nonEmpty(r)
+//@ ensures result == ite(r.BlueGreen != nil, BlueGreenRollingStyle, ite(r.Canary.EnableExtraWorkloadForCanary, CanaryRollingStyle, PartitionRollingStyle))
+//@ pure
+
+//@ func (*RolloutStrategy).IsBlueGreenRelease
+//@ props C02 C09 C10
+//@ requires r != nil && nonEmpty(r)
+//@ ensures result == (r.BlueGreen != nil)
+//@ pure
+
+//@ func (*RolloutStrategy).IsEmptyRelease
+//@ props C09
+//@ requires r != nil
+//@ ensures result == !nonEmpty(r)
+//@ pure
+
+//@ func (*RolloutStrategy).GetSteps
+//@ props C02 C09
+//@ requires r != nil && nonEmpty(r)
+//@ ensures result == ite(r.BlueGreen != nil, r.BlueGreen.Steps, r.Canary.Steps)
+//@ pure
+
+//@ func (*RolloutStatus).GetSubStatus
+//@ props C02 C09
+//@ requires r != nil
+//@ ensures result == ite(r.CanaryStatus != nil, &r.CanaryStatus.CommonStatus, ite(r.BlueGreenStatus != nil, &r.BlueGreenStatus.CommonStatus, nil))
+//@ pure
+
+//@ func (*RolloutStrategy).DisableGenerateCanaryService
+//@ props C03 C09
+//@ requires r != nil && nonEmpty(r)
+//@ ensures result == ite(r.BlueGreen != nil, r.BlueGreen.DisableGenerateCanaryService, r.Canary.DisableGenerateCanaryService)
+//@ pure
+
+//@ func (*RolloutStrategy).GetTrafficRouting
+//@ props C03 C09
+//@ requires r != nil && nonEmpty(r)
+//@ ensures result == ite(r.BlueGreen != nil, r.BlueGreen.TrafficRoutings, r.Canary.TrafficRoutings)
+//@ pure
+
+//@ func (*RolloutStrategy).HasTrafficRoutings
+//@ props C03 C09 C10
+//@ requires r != nil && nonEmpty(r)
+//@ ensures result == (len(ite(r.BlueGreen != nil, r.BlueGreen.TrafficRoutings, r.Canary.TrafficRoutings)) > 0)
+//@ pure
